@@ -61,8 +61,8 @@ Area2(poly) == ShoeFrom(poly, 1)
 
 \* cyclic rotations and reversal of a vertex list
 Rotate(poly, k) == [i \in 1..Len(poly) |-> poly[((i - 1 + k) % Len(poly)) + 1]]
-Reverse(poly) == [i \in 1..Len(poly) |-> poly[Len(poly) + 1 - i]]
-SameCycle(p, q) == Len(p) = Len(q) /\ \E k \in 0..(Len(p) - 1) : Rotate(q, k) = p \/ Rotate(Reverse(q), k) = p
+RevSeq(poly) == [i \in 1..Len(poly) |-> poly[Len(poly) + 1 - i]]
+SameCycle(p, q) == Len(p) = Len(q) /\ \E k \in 0..(Len(p) - 1) : Rotate(q, k) = p \/ Rotate(RevSeq(q), k) = p
 
 \* a planar polygon of 3-space given by integer Cartesian vertices: drop the coordinate in which the normal is non-zero
 Normal3(poly) == Cross(VSub(poly[2], poly[1]), VSub(poly[3], poly[1]))
